@@ -277,13 +277,15 @@ class BodyQ:
                         out.add(o["move"]["l"])
         return out
 
-    def const_compares(self, blocks=None):
+    def const_compares(self, blocks=None, include_expansion=True):
         """integer comparisons with a constant operand: (blk, op, const, aty, other_operand)"""
         out = []
         for i, s in self.b.stmts():
             if blocks is not None and i not in blocks:
                 continue
             rv = s.get("rv", {})
+            if s.get("exp") and not include_expansion:
+                continue
             if rv.get("k") == "binop" and rv["op"] in ("Eq", "Ne", "Lt", "Le", "Gt", "Ge"):
                 ca, cb = lib.op_const_int(rv["a"]), lib.op_const_int(rv["b"])
                 if cb is not None:
@@ -292,3 +294,165 @@ class BodyQ:
                     flip = {"Lt": "Gt", "Le": "Ge", "Gt": "Lt", "Ge": "Le", "Eq": "Eq", "Ne": "Ne"}[rv["op"]]
                     out.append((i, flip, ca, rv["aty"], rv["b"]))
         return out
+
+
+# ---------------------------------------------------------------------------- expression trees
+PLUMBING = re.compile(
+    r"(?:::Try>::branch|::FromResidual<.*>>::from_residual|alloc::alloc::exchange_malloc|::into_vec$|::must_use$|core::fmt::|alloc::fmt::format|"
+    r"std::fmt::|::Iterator>::collect|::Iterator>::map$|Iterator::map$|Iterator::collect$|::into_owned$|::Iterator>::next$|::unwrap_or_default$)")
+
+
+def _split_top(path):
+    out, depth, cur = [], 0, ""
+    i = 0
+    while i < len(path):
+        ch = path[i]
+        if ch == "<":
+            depth += 1
+        elif ch == ">":
+            depth -= 1
+        if ch == ":" and depth == 0 and path[i:i + 2] == "::":
+            out.append(cur)
+            cur = ""
+            i += 2
+            continue
+        cur += ch
+        i += 1
+    out.append(cur)
+    return out
+
+
+def _strip_generics(seg):
+    out, depth = "", 0
+    for ch in seg:
+        if ch == "<":
+            depth += 1
+        elif ch == ">":
+            depth -= 1
+        elif depth == 0:
+            out += ch
+    return out
+
+
+TYPE_SEGS = {"str", "f64", "f32", "i64", "u64", "i32", "u32", "usize", "isize", "num", "slice", "char"}
+
+
+def short_callee(path, c=None):
+    """`regex::regex::string::Regex::new` -> `Regex::new`; `<DateTime<Tz> as Datelike>::weekday` -> `Datelike::weekday`;
+    `core::str::<impl str>::contains` -> `str::contains`; `core::num::<impl i64>::checked_abs` -> `i64::checked_abs`"""
+    m = re.match(r"^<(.+) as ([^<>]+?)(<.*>)?>::(\w+)$", path)
+    if m:
+        tr = m.group(2).split("::")[-1]
+        if tr in ("TryFrom", "From", "Into", "FromStr", "TryInto"):
+            ty = _strip_generics(m.group(1)).split("::")[-1]
+            garg = (m.group(3) or "").strip("<>").split("::")[-1]
+            return "%s::%s<%s>%s" % (tr, m.group(4), ty, ("<-" + garg) if garg else "")
+        return "%s::%s" % (tr, m.group(4))
+    segs = _split_top(path)
+    segs2 = []
+    for sg in segs:
+        mi = re.match(r"^<impl (.+)>$", sg)
+        if mi:
+            inner = mi.group(1)
+            mt = re.match(r"^(?:std|core)::convert::(TryFrom|From)<(.+)> for (.+)$", inner)
+            if mt:
+                segs2.append("%s<%s<-%s>" % (mt.group(1), mt.group(3).split("::")[-1], mt.group(2).split("::")[-1]))
+            else:
+                segs2.append(_strip_generics(inner).replace("[T]", "slice").split("::")[-1].strip())
+        else:
+            segs2.append(_strip_generics(sg))
+    segs2 = [x for x in segs2 if x]
+    if len(segs2) >= 2 and (segs2[-2][:1].isupper() or segs2[-2] in TYPE_SEGS or "<" in segs2[-2]):
+        return segs2[-2] + "::" + segs2[-1]
+    return segs2[-1]
+
+
+def expr_of(q, op, depth=0, seen=None):
+    """Symbolic expression of an operand in terms of the function's parameters (p1, p2, ..), constants and calls.
+    Transparent conversions (deref, clone, into, as_str, to_owned ..) are skipped."""
+    if depth > 25:
+        return "?"
+    if "const" in op:
+        c = op["const"]
+        if "int" in c:
+            return c["int"]
+        if "fn" in c:
+            return "fn " + short_callee(c.get("res_path", c["fn_path"]))
+        return c.get("repr", "const")[:40]
+    p = lib.op_place(op)
+    if p is None:
+        return "?"
+    return place_expr(q, p, depth, seen)
+
+
+def place_expr(q, p, depth=0, seen=None):
+    seen = seen or set()
+    l = p["l"]
+    projs = [e for e in p.get("p", []) if e != "deref"]
+    sfx = "".join(".%s" % (e["f"] if "f" in e else e.get("dc", "?")) for e in projs if isinstance(e, dict))
+    if 1 <= l <= q.b.d["arg_count"]:
+        return "p%d%s" % (l, sfx)
+    if l in seen:
+        return "_%d" % l
+    seen = seen | {l}
+    ds = [x for x in q.defs().get(l, [])]
+    whole = [x for x in ds if "p" not in (x[2]["place"] if x[1] == "assign" else x[2]["dest"])]
+    if len(whole) != 1:
+        if len(whole) > 1:
+            es = sorted(set(_def_expr(q, x, depth, seen) for x in whole))
+            if len(es) == 1:
+                return es[0] + sfx
+            return "phi(" + " | ".join(es[:6]) + ")" + sfx
+        return "_%d%s" % (l, sfx)
+    return _def_expr(q, whole[0], depth, seen) + sfx
+
+
+def _def_expr(q, d, depth, seen):
+    blk, kind, x = d
+    if kind == "assign":
+        rv = x["rv"]
+        k = rv["k"]
+        if k == "use":
+            return expr_of(q, rv["op"], depth + 1, seen)
+        if k in ("ref", "rawptr"):
+            return place_expr(q, rv["place"], depth + 1, seen)
+        if k == "cast":
+            if rv["ck"].startswith(("IntToInt", "FloatToInt", "IntToFloat", "FloatToFloat")):
+                return "(%s as %s)" % (expr_of(q, rv["op"], depth + 1, seen), rv["to"])
+            return expr_of(q, rv["op"], depth + 1, seen)
+        if k == "binop":
+            return "%s(%s, %s)" % (rv["op"], expr_of(q, rv["a"], depth + 1, seen), expr_of(q, rv["b"], depth + 1, seen))
+        if k == "unop":
+            return "%s(%s)" % (rv["op"], expr_of(q, rv["a"], depth + 1, seen))
+        if k == "agg":
+            nm = rv["ak"]
+            if nm == "adt":
+                nm = rv["adt"].split("::")[-1] + "::" + rv["variant"]
+            elif nm == "closure":
+                nm = "closure#" + rv["def"].rsplit("#", 1)[-1].rstrip("}")
+            return "%s{%s}" % (nm, ", ".join(expr_of(q, o, depth + 1, seen) for o in rv["ops"]))
+        if k == "discr":
+            return "discr(%s)" % place_expr(q, rv["place"], depth + 1, seen)
+        return k
+    rid, path, c = lib.callee_of(x)
+    if rid is None:
+        return "indirect(%s)" % ", ".join(expr_of(q, a, depth + 1, seen) for a in x["args"])
+    if TRANSPARENT.search(path) and x["args"]:
+        return expr_of(q, x["args"][0], depth + 1, seen)
+    return "%s(%s)" % (short_callee(path), ", ".join(expr_of(q, a, depth + 1, seen) for a in x["args"]))
+
+
+def call_exprs(q, keep=None, drop=PLUMBING):
+    """one expression string per non-transparent call of the body (optionally only callees matching `keep`)"""
+    out = []
+    for i, t in q.b.calls():
+        rid, path, c = lib.callee_of(t)
+        if rid is None:
+            out.append("indirect(%s)" % ", ".join(expr_of(q, a) for a in t["args"]))
+            continue
+        if TRANSPARENT.search(path) or (drop is not None and drop.search(path)):
+            continue
+        if keep is not None and not keep.search(path):
+            continue
+        out.append("%s(%s)" % (short_callee(path), ", ".join(expr_of(q, a) for a in t["args"])))
+    return out
